@@ -92,6 +92,7 @@ var supportedActionList = map[Action]struct{}{
 	ListBucketVersionsAction:               {},
 	ListBucketAction:                       {},
 	PutBucketObjectLockConfigurationAction: {},
+	GetBucketObjectLockConfigurationAction: {},
 	GetObjectLegalHoldAction:               {},
 	PutObjectLegalHoldAction:               {},
 	GetObjectRetentionAction:               {},
